@@ -10,7 +10,7 @@ for d in sorted(glob.glob('seeded/*/')):
     caught = []
     if os.path.exists(d + 'results.txt'):
         cur = None
-        for line in open(d + 'results.txt'):
+        for line in open(d + 'results.txt', errors='replace'):
             mm = re.match(r'== ./check (C\d\d)', line)
             if mm: cur = mm.group(1); got = set()
             if line.startswith('VIOLATION') and cur: got.add('v')
